@@ -165,8 +165,6 @@ def assumptions(prop):
 
 def run(prop, tier, seed):
     r = run_kani(prop, tier, seed)
-    if prop == "C18" and r:
-        r["level"] = "other"
     return r
 
 
